@@ -333,6 +333,37 @@ func (c *Ctx) combLoop(n int, maxLeaves int, leafGen func() *Node, opt ObjOpts, 
 	}
 	batch = append(batch, c.corpusCombCases()...)
 	flush()
+	// long flat chains in which exactly ONE operand decides (all others are neutral): an operand dropped, skipped or
+	// regrouped somewhere in a long chain shows at once, whatever its position
+	for k := 0; k < 10 && !c.full(); k++ {
+		nOps := 60 + c.R.Intn(90)
+		or := c.R.Chance(1, 2)
+		j := c.R.Intn(nOps)
+		if k < 4 {
+			j = []int{0, 1, nOps - 65, nOps - 1}[k]
+			if j < 0 {
+				j = 2
+			}
+		}
+		obj := avObj()
+		var acc *Node
+		for i := 0; i < nOps; i++ {
+			lf := &Node{T: NCmp, Path: []string{"p" + strconv.Itoa(i)}, Op: 13, Lit: Lit{Kind: "long", Text: strconv.Itoa(i)}}
+			val := int64(i)
+			if (i == j) != or {
+				val = int64(i) + 1000 // and-chain: only operand j is false; or-chain: only operand j is true
+			}
+			obj.Set(lf.Path[0], avInt(val))
+			if acc == nil {
+				acc = lf
+			} else {
+				acc = &Node{T: NLogic, Or: or, L: acc, R: lf}
+			}
+		}
+		c.count("long_chain_single_decisive_operand")
+		batch = append(batch, c.mkComb(acc, obj, true))
+	}
+	flush()
 	for i := 0; i < n && !c.full(); i++ {
 		k := 2 + c.R.Intn(maxLeaves-1)
 		if c.R.Chance(1, 12) {
